@@ -280,6 +280,32 @@ def first_byte_sweep(chk: Check, root: str) -> None:
         plain_site.close()
 
 
+def long_lines(chk: Check, root: str) -> None:
+    """Every documented shape with a first line of 1 KiB .. 1 MiB, on a live connection: what the connection
+    handler hands to the multiplexer must be the whole line (most shapes are recognised by their *end*)."""
+    site = driver.Site(root, tls_context=True)
+    try:
+        for n in (900, 1100, 2000, 4090, 4200, 9000, 70000, 300000, 1100000):
+            pad = b"p" * n
+            shapes = [(b"GET /a.txt?pad=" + pad + b" HTTP/1.0", b"\r\n"), (b"HEAD /" + pad + b" HTTP/1.1", b"Host: x\r\n\r\n"),
+                      (b"GET /wap/" + pad + b" HTTP/1.0", b"\r\n"), (b"verif.example /" + pad + b" 0", b""),
+                      (b"/" + pad + b"\t+", b""), (b"/a.txt\t" + pad + b"\t$", b""), (b"/" + pad + b"\t!", b""),
+                      (b"gemini://verif.example/" + pad, b""), (b"/" + pad, b""), (b"/a.txt\t" + pad, b"")]
+            for line, hdrs in shapes:
+                for tls in (False, True):
+                    want = classify(line, tls, hdrs)
+                    r = site.request(line + b"\r\n" + hdrs, tls=tls)
+                    chk.count("long_first_lines_on_live_connections")
+                    sample = {"line_head": line[:40], "line_tail": line[-24:], "length": len(line), "tls": tls, "reference": want,
+                              "answered_by": r.protocol, "reply_head": r.data[:80]}
+                    if want is not None and r.protocol != want:
+                        chk.witness("C02/long-line:%s-claimed-by-%s" % (want, r.protocol), sample)
+                        return
+                    chk.case(("long-line", want, tls, n), sample if n == 4200 and not tls else None)
+    finally:
+        site.close()
+
+
 def main() -> int:
     chk = Check("C02", "exploration")
     quick = chk.tier == "quick"
@@ -314,6 +340,7 @@ def main() -> int:
             site.close()
         if sweep:
             first_byte_sweep(chk, root)
+            long_lines(chk, root)
     return chk.finish(
         rule="case = (first line, TLS?, header block) evaluated on the real protocol classes: every class alone "
              "(accepts?), getProtocol twice for the shipped order and for shuffled/truncated/reversed orders; "
